@@ -447,7 +447,7 @@ func (fr *Frame) execLoop(l *Loop, entry []*Edge) []*Edge {
 		return nil
 	}
 	for _, cl := range invs {
-		t := fr.evalClause(cl, st0, st0, nil)
+		t := fr.evalClause(cl, st0, fr.entryOr(st0), nil)
 		vc.oblige(st0, "inv-init", fmt.Sprintf("loop%d/%s", l.Ord, cl.Label), fr.contract.clauseProps(cl), t, l.Head.Instrs[0].Pos())
 	}
 	// havoc: head phis, locals and heaps assigned in the loop
@@ -462,7 +462,7 @@ func (fr *Frame) execLoop(l *Loop, entry []*Edge) []*Edge {
 	}
 	fr.havocLoopTargets(l, hst)
 	for _, cl := range invs {
-		vc.addFact(hst, fr.evalClause(cl, hst, hst, nil))
+		vc.addFact(hst, fr.evalClause(cl, hst, fr.entryOr(hst), nil))
 	}
 	// built-in facts for range loops: index phi >= -1
 	res := fr.execRegion(l, nil, hst)
@@ -477,7 +477,7 @@ func (fr *Frame) execLoop(l *Loop, entry []*Edge) []*Edge {
 			fr.env[k] = v
 		}
 		for _, cl := range invs {
-			t := fr.evalClause(cl, e.St, e.St, nil)
+			t := fr.evalClause(cl, e.St, fr.entryOr(e.St), nil)
 			vc.oblige(e.St, "inv-pres", fmt.Sprintf("loop%d/%s", l.Ord, cl.Label), fr.contract.clauseProps(cl), t, l.Head.Instrs[0].Pos())
 		}
 		for k, v := range saved {
@@ -485,6 +485,13 @@ func (fr *Frame) execLoop(l *Loop, entry []*Edge) []*Edge {
 		}
 	}
 	return res.exits
+}
+
+func (fr *Frame) entryOr(st *State) *State {
+	if fr.entry != nil {
+		return fr.entry
+	}
+	return st
 }
 
 func backFolds(edges []*Edge) bool {
@@ -528,6 +535,7 @@ func (fr *Frame) havocLoopTargets(l *Loop, st *State) {
 	vc := fr.vc
 	heapKeys := map[string]bool{}
 	all := false
+	ghosts := false
 	for b := range l.Blocks {
 		for _, ins := range b.Instrs {
 			switch x := ins.(type) {
@@ -544,9 +552,38 @@ func (fr *Frame) havocLoopTargets(l *Loop, st *State) {
 			case *ssa.MapUpdate:
 				all = true
 			case ssa.CallInstruction:
+				com := x.Common()
+				_, isFn := com.Value.(*ssa.Function)
+				_, isMC := com.Value.(*ssa.MakeClosure)
+				_, isBI := com.Value.(*ssa.Builtin)
+				if !com.IsInvoke() && !isFn && !isMC && !isBI {
+					// call through a function value: closures known to this run may write memory, unknown ones only the ghost trace
+					ghosts = true
+					sig := com.Value.Type().Underlying().(*types.Signature)
+					for _, c := range vc.closures {
+						if sameSigNoRecv(c.Fn.Signature, sig) && vc.prog.mayWrite(c.Fn, map[*ssa.Function]bool{}) {
+							all = true
+						}
+					}
+					continue
+				}
 				if fr.callMayWriteHeap(x) {
 					all = true
 				}
+			}
+		}
+	}
+	if ghosts && !all {
+		for g := range st.Ghost {
+			st.Ghost[g] = Var(freshName("g."+g+"@loop"), st.Ghost[g].S)
+		}
+		for _, g := range []string{"tn", "trfn", "trres", "ncalls"} {
+			if _, ok := st.Ghost[g]; !ok {
+				s := SInt
+				if g != "tn" {
+					s = SArray(SInt, SInt)
+				}
+				st.Ghost[g] = Var(freshName("g."+g+"@loop"), s)
 			}
 		}
 	}
